@@ -4,6 +4,12 @@ sub-agent (property text, quantifier, anchors and mechanisms from properties.jso
 import json, pathlib, subprocess, sys, re
 letter = sys.argv[1]
 STYLE = {
+ 'h': ("This time target a CONTRACT BETWEEN TWO COMPONENTS rather than one function, and change only ONE side of it so that the other side, unchanged, "
+       "now misbehaves: what an edge class promises the nodes that use it (delegation of reserve / put / get / cancel, can_put / can_get, the time stamps and "
+       "statistics it updates in its wrapper, the events it fires for its own process); what a store promises its edge (events fired, callbacks registered, "
+       "attributes set on tokens and items, return values such as `proceed`); what the helper classes (Pallet, Item / BaseFlowItem, the Node and Edge base "
+       "classes, utils) promise their users; what a constructor or reset() promises the methods that run later (attributes initialised, defaults, validation "
+       "done once). Prefer a file / class that none of the earlier changes touched. Keep it small and plausible."),
  'g': ("This time make it a CLEAN-UP / SIMPLIFICATION that goes slightly wrong - the diff should mostly REMOVE or SHORTEN code: something that looks "
        "redundant is dropped (a second check, a repeated re-trigger call, a defensive copy `list(...)`, a re-read of `env.now`, a `not ev.triggered` "
        "guard, the reset of a variable, an `else` branch, a `try/except`), two branches that look alike but differ in one detail are merged, a hand-written "
